@@ -1,12 +1,12 @@
 """C05 - State construction accepts exactly conforming values and stores them faithfully."""
 import random
 
-from haiway import MISSING
+from haiway import MISSING, State
 
 import json
 
 from harness.legs import cfg_text, gen_traces, leg_m, leg_mutant, leg_r, leg_t_gen
-from props.values_common import is_frozen, make_class, make_generic, make_generic_subclass, py_to_val, val_to_py
+from props.values_common import ann_to_py, is_frozen, make_class, make_generic, make_generic_subclass, py_to_val, val_to_py
 
 SPEC = "Values"
 MANIFEST = dict(
@@ -48,6 +48,14 @@ def construct(ann, val, use_default, generic=False):
             except Exception:  # noqa: BLE001  - an annotation that cannot be a type argument: plain holder instead
                 cls = make_class(ann)
             inst = cls(x=pyval)
+        elif use_default in ("sub", "sub-bare"):
+            # a subclass that overrides only the DEFAULT of an attribute it inherits (re-annotated alike, or a bare
+            # `x = value`): the subclass's default is what an instance built without arguments gets
+            base = make_class(ann)
+            ns = {"__module__": __name__, "x": pyval}
+            if use_default == "sub":
+                ns["__annotations__"] = {"x": ann_to_py(ann)}
+            inst = type(State)("SubDefault", (base,), ns)()
         elif use_default:
             cls = make_class(ann, default=pyval)
             inst = cls()
@@ -63,7 +71,7 @@ def construct(ann, val, use_default, generic=False):
     return dict(acc="yes", stored=term)
 
 
-FORMS = ("plain", "default", "generic", "generic-sub")
+FORMS = ("plain", "default", "generic", "generic-sub", "sub-default", "sub-default-bare")
 _SWAP = {"pinst": "phollow", "phollow": "pinst", "pclass": "phollow", "int": "bool", "bool": "int", "state": "state2",
          "state2": "state", "list": "tuple", "tuple": "list", "set": "fset", "fset": "set", "date": "datetime",
          "datetime": "date", "func": "cls", "cls": "func", "none": "missing", "missing": "none"}
@@ -92,12 +100,12 @@ class ValuesDriver:
     def reset(self, init):
         self.ann, self.val = init["ann"], init["val"]
 
-    def _all_forms(self, val):
+    def _all_forms(self, val, forms=FORMS):
         out = {}
-        for form in FORMS:
-            if form == "default" and val["k"] == "missing":
+        for form in forms:
+            if form in ("default", "sub-default", "sub-default-bare") and val["k"] == "missing":
                 continue  # MISSING as a default means "no default"
-            out[form] = construct(self.ann, val, form == "default",
+            out[form] = construct(self.ann, val, {"default": True, "sub-default": "sub", "sub-default-bare": "sub-bare"}.get(form, False),
                                   {"generic": True, "generic-sub": "sub"}.get(form, False))
         return out
 
@@ -106,10 +114,11 @@ class ValuesDriver:
         out = self._all_forms(self.val)
         # the verdict belongs to the value: after the same classes have judged the value's look-alikes (same Python class,
         # ==-equal, same shape) they judge the value itself exactly as before
+        kept = ("plain", "generic", "generic-sub")     # the forms whose classes live on between constructions
         for other in look_alikes(self.val):
-            self._all_forms(other)
-        again = self._all_forms(self.val)
-        if again != out:
+            self._all_forms(other, kept)
+        again = self._all_forms(self.val, kept)
+        if again != {f: out[f] for f in kept}:
             return dict(out["plain"], verdict_depends_on_history=dict(first=out, again=again))
         first = out["plain"]
         differing = {f: o for f, o in out.items() if o != first}
